@@ -651,7 +651,9 @@ func calAndSetShortCircuit(e *Expr) {
 			f[i] = i
 			continue
 		}
-		if isLastChild(e, i) {
+		// the value of the last operand is the value of the operator,
+		// unless the operator has to reject its operand count
+		if isLastChild(e, i) && p.childCnt >= 2 {
 			flag |= scIfTrue
 			flag |= scIfFalse
 		}
